@@ -198,6 +198,16 @@ func init() {
 			return i.ts.UF(name, ts)
 		},
 		"vxPause": func(fr *frame, args []value) value { return nil },
+		// standard output of the code under test as an observable (fmt.Print, Printf, Println)
+		"vxStdoutBegin": func(fr *frame, args []value) value { fr.i.run.stdout = ""; return nil },
+		"vxStdoutEnd": func(fr *frame, args []value) value {
+			s := fr.i.run.stdout
+			fr.i.run.stdout = nil
+			if s == nil {
+				return ""
+			}
+			return s
+		},
 		// instrumentation points (inserted by instrument.go in front of every synchronisation operation of the
 		// harness package): the engine only numbers them per goroutine; natively they enforce a schedule
 		"vxSchedPoint": func(fr *frame, args []value) value {
@@ -461,9 +471,9 @@ func init() {
 		"fmt.Fprintln": func(fr *frame, args []value) value {
 			return writeTo(fr, args[0], fmtSprint(fr, args[1].([]value), true))
 		},
-		"fmt.Printf":  func(fr *frame, args []value) value { return tuple{0, iface{}} },
-		"fmt.Println": func(fr *frame, args []value) value { return tuple{0, iface{}} },
-		"fmt.Print":   func(fr *frame, args []value) value { return tuple{0, iface{}} },
+		"fmt.Printf":  func(fr *frame, args []value) value { return toStdout(fr, fmtSprintf(fr, args[0], args[1].([]value))) },
+		"fmt.Println": func(fr *frame, args []value) value { return toStdout(fr, fmtSprint(fr, args[0].([]value), true)) },
+		"fmt.Print":   func(fr *frame, args []value) value { return toStdout(fr, fmtSprint(fr, args[0].([]value), false)) },
 
 		// errors (reflectlite)
 		"errors.Is": extErrorsIs,
@@ -1074,4 +1084,14 @@ func concF64(v value) float64 {
 		panic(pathEnd{kind: "unsupported", msg: "symbolic floating point argument"})
 	}
 	return f
+}
+
+// toStdout: fmt.Print* write to the path's standard-output buffer while a harness captures it.
+func toStdout(fr *frame, s value) value {
+	r := fr.i.run
+	if r != nil && r.stdout != nil {
+		r.stdout = strConcat(r.stdout, s)
+	}
+	n, _ := seqOf(s)
+	return tuple{n, iface{}}
 }
